@@ -54,6 +54,8 @@ func PathExists(q PathQuery) (ssa.Instruction, bool) {
 		retCall *ssa.Call
 		retErr  int
 		retVals []int8 // per result of the helper: +1 constant nil / true, -1 provably non-nil / constant false, 0 unknown
+		cons    string // signature of (retCall, retVals): part of the visited key (knowledge about the helper's results stays
+		// valid along the path: SSA values do not change)
 	}
 	key := func(stack []*ssa.Call) string {
 		if len(stack) == 0 {
@@ -153,7 +155,7 @@ func PathExists(q PathQuery) (ssa.Instruction, bool) {
 				rk := rkey{key(rest) + "#" + sig, call}
 				if !returned[rk] {
 					returned[rk] = true
-					work = append(work, state{b: call.Block(), idx: InstrIndex(call) + 1, stack: rest, retCall: call, retErr: ne, retVals: rv})
+					work = append(work, state{b: call.Block(), idx: InstrIndex(call) + 1, stack: rest, retCall: call, retErr: ne, retVals: rv, cons: ptrKey(call) + "=" + sig})
 				}
 				cut = true
 				break
@@ -167,10 +169,10 @@ func PathExists(q PathQuery) (ssa.Instruction, bool) {
 			}
 			if g := TransparentCallee(in); g != nil && len(s.stack) < maxInlineDepth && !onStack(s.stack, g) {
 				ns := append(append([]*ssa.Call{}, s.stack...), in.(*ssa.Call))
-				vk := vkey{key(ns), g.Blocks[0]}
+				vk := vkey{key(ns) + "|" + s.cons, g.Blocks[0]}
 				if !visited[vk] {
 					visited[vk] = true
-					work = append(work, state{b: g.Blocks[0], stack: ns})
+					work = append(work, state{b: g.Blocks[0], stack: ns, retCall: s.retCall, retVals: s.retVals, cons: s.cons})
 				}
 				cut = true // the continuation is scheduled when the helper returns
 				break
@@ -179,7 +181,7 @@ func PathExists(q PathQuery) (ssa.Instruction, bool) {
 		if cut {
 			continue
 		}
-		sk := key(s.stack)
+		sk := key(s.stack) + "|" + s.cons
 		// a helper that returned a nil (non-nil) error cannot take the caller's err != nil (err == nil) branch right after
 		skip := -1
 		if s.retCall != nil && len(s.retVals) > 0 && len(s.b.Succs) == 2 {
@@ -197,7 +199,7 @@ func PathExists(q PathQuery) (ssa.Instruction, bool) {
 			vk := vkey{sk, succ}
 			if !visited[vk] {
 				visited[vk] = true
-				work = append(work, state{b: succ, stack: s.stack})
+				work = append(work, state{b: succ, stack: s.stack, retCall: s.retCall, retVals: s.retVals, cons: s.cons})
 			}
 		}
 	}
